@@ -218,6 +218,7 @@ class ManagerRig:
         self.addr = self.listener.getsockname()
         self.drainer = Drainer()
         self.clients = []
+        self.used_ports = set()
         self.thread = threading.Thread(target=self._thread, daemon=True, name="vf-manager")
         self.thread.start()
         if stepped:
@@ -367,7 +368,11 @@ class ManagerRig:
             return self.result
 
     def client(self, label=None) -> WireClient:
-        wc = WireClient(self.drainer, self.addr, label or f"c{len(self.clients)}", timecode=self.timecode)
+        # every harness connection of one rig gets a client port of its own: the kernel may hand a just-released
+        # ephemeral port to a later connection, and addresses identify connections in the harness's bookkeeping
+        wc = WireClient(self.drainer, self.addr, label or f"c{len(self.clients)}", timecode=self.timecode,
+                        avoid_ports=self.used_ports)
+        self.used_ports.add(wc.local[1])
         self.clients.append(wc)
         return wc
 
